@@ -1097,6 +1097,36 @@ theorem le_toRat_ceil {x : F64} (hf : isFinite x = true) : toRat x ≤ toRat (ce
 theorem toRat_ceil_lt {x : F64} (hf : isFinite x = true) : toRat (ceil x) < toRat x + 1 := by
   rw [toRat_ceil hf]; exact Rat.ceil_lt
 
+theorem isFinite_floor (x : F64) : isFinite (floor x) = isFinite x := by
+  cases x with
+  | fin q => simp only [floor]; split <;> rfl
+  | _ => rfl
+
+/-- `math.Floor` of a finite value is the integer floor -/
+theorem toRat_floor {x : F64} (hf : isFinite x = true) : toRat (floor x) = ((toRat x).floor : Rat) := by
+  cases x with
+  | nan => exact Bool.noConfusion hf
+  | inf _ => exact Bool.noConfusion hf
+  | zero _ =>
+    show (0 : Rat) = (((0 : Rat).floor : Int) : Rat)
+    have := Rat.floor_intCast 0
+    rw [Rat.intCast_zero] at this
+    rw [this, Rat.intCast_zero]
+  | fin q =>
+    simp only [floor]
+    by_cases h : q.floor = 0
+    · rw [if_pos h]; show (0 : Rat) = ((q.floor : Int) : Rat); rw [h, Rat.intCast_zero]
+    · rw [if_neg h]; rfl
+
+/-- `math.Abs` -/
+theorem toRat_abs (x : F64) : toRat (abs x) = (toRat x).abs := by
+  cases x with
+  | fin q => simp only [abs, toRat, Rat.abs]; split <;> grind
+  | _ => simp [abs, toRat]
+
+theorem isFinite_abs (x : F64) : isFinite (abs x) = isFinite x := by
+  cases x <;> rfl
+
 /-! #### arithmetic on finite values -/
 
 theorem WF_zero (s : Bool) : WF (.zero s) := trivial
@@ -1108,6 +1138,14 @@ theorem WF_neg {x : F64} (h : WF x) : WF (neg x) := by
   | fin q =>
     obtain ⟨hr, hlt, h0⟩ := WF.rep h
     exact WF_fin_iff.2 ⟨hr.neg, by rwa [Rat.abs_neg], by grind⟩
+  | _ => trivial
+
+theorem WF_abs {x : F64} (h : WF x) : WF (abs x) := by
+  cases x with
+  | fin q =>
+    simp only [abs]; split
+    · exact WF_neg (x := .fin q) h
+    · exact h
   | _ => trivial
 
 theorem roundNE_of_WF {q : Rat} (h : WF (.fin q)) : roundNE q = .fin q := h.2
@@ -1203,6 +1241,131 @@ theorem mul_negone_left {x : F64} (h : WF x) : mul (ofInt (-1)) x = neg x := by
 theorem mul_mono_left {a b d : Rat} (hd : 0 ≤ d) (h : a ≤ b) :
     le (roundNE (a * d)) (roundNE (b * d)) = true :=
   le_roundNE_of_le (Rat.mul_le_mul_of_nonneg_right h hd)
+
+/-! #### integers of representable values are representable -/
+
+/-- a representable value is an integer, or smaller than `2^53` in magnitude -/
+theorem rep_int_or_small {v : Rat} (h : Rep v) :
+    (∃ i : Int, v = (i : Rat)) ∨ (-(pow2 53) < v ∧ v < pow2 53) := by
+  obtain ⟨m, K, hm, hK, rfl⟩ := h
+  by_cases hk : 0 ≤ K
+  · left
+    obtain ⟨n, rfl⟩ := Int.eq_ofNat_of_zero_le hk
+    refine ⟨m * ((2 ^ n : Nat) : Int), ?_⟩
+    rw [pow2_natCast, Rat.intCast_mul, Rat.intCast_natCast]
+  · right
+    have hP := pow2_pos K
+    have h1 : pow2 K ≤ 1 := by have := pow2_mono (show K ≤ 0 by omega); rwa [pow2_zero] at this
+    have hm1 : -(pow2 53) < (m : Rat) := by
+      rw [pow2_53, ← Rat.intCast_natCast, ← Rat.intCast_neg]; exact Rat.intCast_lt_intCast.2 (by omega)
+    have hm2 : (m : Rat) < pow2 53 := by
+      rw [pow2_53, ← Rat.intCast_natCast]; exact Rat.intCast_lt_intCast.2 (by omega)
+    have hP53 := pow2_pos 53
+    by_cases h0 : 0 ≤ (m : Rat)
+    · have := Rat.mul_le_mul_of_nonneg_left h1 h0
+      have := Rat.mul_nonneg h0 (Rat.le_of_lt hP)
+      grind
+    · have := Rat.mul_le_mul_of_nonneg_left h1 (show 0 ≤ -(m : Rat) by grind)
+      have := Rat.mul_nonneg (show 0 ≤ -(m : Rat) by grind) (Rat.le_of_lt hP)
+      grind
+
+private theorem WF_int_of_near {q : Rat} {c : Int} (h : WF (.fin q)) (hc0 : c ≠ 0)
+    (hnear : (c : Rat) = q ∨ (-(pow2 53) < q ∧ q < pow2 53 ∧ (c : Rat) - 1 < q ∧ q < (c : Rat) + 1)) :
+    WF (.fin (c : Rat)) := by
+  obtain ⟨hr, hlt, _⟩ := WF.rep h
+  rcases hnear with e | ⟨l, u, cl, cu⟩
+  · rw [e]; exact h
+  · have h1 : ((c - 1 : Int) : Rat) < (((2 ^ 53 : Nat) : Int) : Rat) := by
+      rw [Rat.intCast_sub, Rat.intCast_one, Rat.intCast_natCast, ← pow2_53]; grind
+    have h2 : ((-((2 ^ 53 : Nat) : Int) : Int) : Rat) < ((c + 1 : Int) : Rat) := by
+      rw [Rat.intCast_add, Rat.intCast_one, Rat.intCast_neg, Rat.intCast_natCast, ← pow2_53]; grind
+    have h1' := Rat.intCast_lt_intCast.1 h1
+    have h2' := Rat.intCast_lt_intCast.1 h2
+    have hn : c.natAbs ≤ 2 ^ 53 := by omega
+    have := ofInt_exact hc0 hn
+    have w := WF_ofInt c
+    rwa [this] at w
+
+theorem WF_ceil {x : F64} (h : WF x) : WF (ceil x) := by
+  cases x with
+  | fin q =>
+    simp only [ceil]
+    by_cases hc : q.ceil = 0
+    · rw [if_pos hc]; trivial
+    · rw [if_neg hc]
+      refine WF_int_of_near h hc ?_
+      rcases rep_int_or_small (WF.rep h).1 with ⟨i, rfl⟩ | ⟨l, u⟩
+      · left; rw [Rat.ceil_intCast]
+      · right
+        have a := @Rat.le_ceil q
+        have b := @Rat.ceil_lt q
+        exact ⟨l, u, by grind, by grind⟩
+  | _ => exact h
+
+theorem WF_floor {x : F64} (h : WF x) : WF (floor x) := by
+  cases x with
+  | fin q =>
+    simp only [floor]
+    by_cases hc : q.floor = 0
+    · rw [if_pos hc]; trivial
+    · rw [if_neg hc]
+      refine WF_int_of_near h hc ?_
+      rcases rep_int_or_small (WF.rep h).1 with ⟨i, rfl⟩ | ⟨l, u⟩
+      · left; rw [Rat.floor_intCast]
+      · right
+        have a := Rat.floor_le q
+        have b := Rat.lt_floor_add_one q
+        rw [Rat.intCast_add, Rat.intCast_one] at b
+        exact ⟨l, u, by grind, by grind⟩
+  | _ => exact h
+
+/-! #### `math.Sqrt`: sign and NaN-freeness -/
+
+theorem sqrtRat_arg_nonneg (n : Nat) (k : Int) : 0 ≤ (n : Rat) / pow2 k := by
+  rw [le_div_iff (pow2_pos k), Rat.zero_mul]; exact Rat.natCast_nonneg
+
+/-- `sqrtRat q` is `roundNE` of a non-negative rational -/
+theorem sqrtRat_eq (q : Rat) : ∃ t : Rat, 0 ≤ t ∧ sqrtRat q = roundNE t := by
+  unfold sqrtRat
+  simp only []
+  split <;> split <;> exact ⟨_, sqrtRat_arg_nonneg _ _, rfl⟩
+
+theorem WF_sqrt {x : F64} (h : WF x) : WF (sqrt x) := by
+  cases x with
+  | nan => trivial
+  | inf s => cases s <;> trivial
+  | zero _ => trivial
+  | fin q =>
+    simp only [sqrt]; split
+    · trivial
+    · obtain ⟨t, _, e⟩ := sqrtRat_eq q; rw [e]; exact WF_roundNE t
+
+/-- the square root is never negative (NaN and infinities read as 0) -/
+theorem toRat_sqrt_nonneg (x : F64) : 0 ≤ toRat (sqrt x) := by
+  cases x with
+  | nan => exact Rat.le_refl
+  | inf s => cases s <;> exact Rat.le_refl
+  | zero _ => exact Rat.le_refl
+  | fin q =>
+    simp only [sqrt]; split
+    · exact Rat.le_refl
+    · obtain ⟨t, ht, e⟩ := sqrtRat_eq q; rw [e]; exact roundNE_nonneg ht
+
+/-- `math.Sqrt` of a non-negative finite value is not NaN -/
+theorem sqrt_ne_nan {x : F64} (hf : isFinite x = true) (h0 : 0 ≤ toRat x) : sqrt x ≠ .nan := by
+  cases x with
+  | nan => exact Bool.noConfusion hf
+  | inf _ => exact Bool.noConfusion hf
+  | zero _ => exact F64.noConfusion
+  | fin q =>
+    simp only [sqrt]
+    rw [toRat_fin] at h0
+    rw [if_neg (by grind)]
+    obtain ⟨t, _, e⟩ := sqrtRat_eq q; rw [e]; exact roundNE_ne_nan t
+
+/-- `math.Sqrt` of a negative finite value is NaN -/
+theorem sqrt_neg_eq_nan {q : Rat} (h : q < 0) : sqrt (.fin q) = .nan := by
+  simp only [sqrt]; rw [if_pos h]
 
 /-! #### bit patterns decode to well-formed values -/
 
@@ -1478,5 +1641,225 @@ theorem toDuration_val {s : F64} (hs : isFinite s = true)
   rw [abs_le_iff] at hb
   rw [toInt64_eq_trunc f (by rw [v, show pow2 63 = 9223372036854775808 by decide]; grind)
     (by rw [v, show pow2 63 = 9223372036854775808 by decide]; grind), v]
+
+/-! ### 8. clamp-then-convert: a parts-per-million slew bound (PLL)
+
+The PLL clamps `p` to `[d * -500e-6, d * 500e-6]` (`d = math.Ceil(dt)`, an integer number of
+seconds) and hands `timemath.Duration(p)` to the clock: the slew is at most 500 µs per second,
+in integer nanoseconds, with no rounding slack — for `d ≤ 6·10^9` s. -/
+
+/-- the double nearest to `500e-6` -/
+def c500ppm : Rat := rnd (1 / 2000)
+
+theorem c500ppm_bounds :
+    1 / 2000 - 1 / 2000 / 9007199254740992 ≤ c500ppm ∧ c500ppm ≤ 1 / 2000 + 1 / 2000 / 9007199254740992 := by
+  have h : pow2 (-1022) ≤ ((1 : Rat) / 2000).abs := by
+    rw [Rat.abs_of_nonneg (by grind)]
+    refine Rat.le_trans (pow2_mono (show (-1022 : Int) ≤ -11 by decide)) ?_
+    rw [show pow2 (-11) = 1 / 2048 by rw [pow2_neg]; congr 1]; grind
+  have e := rnd_err_rel h
+  rw [Rat.abs_of_nonneg (show (0 : Rat) ≤ 1 / 2000 by grind), show pow2 53 = 9007199254740992 by decide,
+    abs_le_iff] at e
+  unfold c500ppm; grind
+
+theorem ofConst_500ppm : toRat (ofConst 500 1000000) = c500ppm := by
+  unfold ofConst c500ppm
+  have e : ((500 : Int) : Rat) / ((1000000 : Nat) : Rat) = 1 / 2000 := by
+    simp only [Rat.intCast_ofNat, Rat.natCast_ofNat]; grind
+  rw [e]
+  refine toRat_roundNE_of_le (Rat.le_trans ?_ (pow2_le_maxFin (K := 0) (by decide)))
+  rw [pow2_zero, abs_le_iff]; grind
+
+private theorem slew_arith {d x r1 r2 η : Rat} (hd : d ≤ 6000000000)
+    (hη : η ≤ 1 / 1152921504606846976)
+    (hx : x ≤ d * (1 / 2000 + 1 / 2000 / 9007199254740992))
+    (e1 : r1 - x ≤ x / 9007199254740992 + η)
+    (e2 : r2 - r1 * 1000000000 ≤ r1 * 1000000000 / 9007199254740992 + η) :
+    r2 < 500000 * d + 1 := by
+  grind
+
+/-- the clamp value, converted: `rnd (rnd (d·c)·10^9) < 500000·d + 1` -/
+theorem slew_upper {d : Rat} (hd0 : 0 ≤ d) (hd : d ≤ 6000000000) :
+    rnd (rnd (d * c500ppm) * 1000000000) < 500000 * d + 1 := by
+  obtain ⟨cl, cu⟩ := c500ppm_bounds
+  have hc0 : 0 ≤ c500ppm := by grind
+  have hx0 : 0 ≤ d * c500ppm := Rat.mul_nonneg hd0 hc0
+  have hx : d * c500ppm ≤ d * (1 / 2000 + 1 / 2000 / 9007199254740992) :=
+    Rat.mul_le_mul_of_nonneg_left cu hd0
+  have h1 : 0 ≤ rnd (d * c500ppm) := rnd_nonneg hx0
+  have e1 := rnd_err_gen (d * c500ppm)
+  have e2 := rnd_err_gen (rnd (d * c500ppm) * 1000000000)
+  rw [show pow2 53 = 9007199254740992 by decide, abs_le_iff,
+    Rat.abs_of_nonneg hx0] at e1
+  rw [show pow2 53 = 9007199254740992 by decide, abs_le_iff,
+    Rat.abs_of_nonneg (show 0 ≤ rnd (d * c500ppm) * 1000000000 by grind)] at e2
+  have hη : pow2 (-1075) ≤ 1 / 1152921504606846976 := by
+    rw [show (1 : Rat) / 1152921504606846976 = pow2 (-60) by rw [pow2_neg]; congr 1]
+    exact pow2_mono (by decide)
+  exact slew_arith hd hη hx e1.2 e2.2
+
+/-- PLL slew bound: if `p` lies between the two clamp values `∓rnd (d·c)` for an integer
+    number of seconds `0 ≤ k ≤ 6·10^9` (`d = k`), then `timemath.Duration(p)` — the truncation of
+    `rnd (p·10^9)` — is at most `500000·k` ns in magnitude: 500 ppm, exactly. -/
+theorem ppm_slew_bound {k : Int} (hk0 : 0 ≤ k) (hk : k ≤ 6000000000) {p : Rat}
+    (hp1 : -(rnd ((k : Rat) * c500ppm)) ≤ p) (hp2 : p ≤ rnd ((k : Rat) * c500ppm)) :
+    -(500000 * k) ≤ trunc (rnd (p * 1000000000)) ∧ trunc (rnd (p * 1000000000)) ≤ 500000 * k := by
+  have hd0 : (0 : Rat) ≤ (k : Rat) := by
+    have : ((0 : Int) : Rat) ≤ (k : Rat) := Rat.intCast_le_intCast.2 hk0
+    rwa [Rat.intCast_zero] at this
+  have hd : (k : Rat) ≤ 6000000000 := by
+    have : (k : Rat) ≤ ((6000000000 : Int) : Rat) := Rat.intCast_le_intCast.2 hk
+    simpa using this
+  have hu := slew_upper hd0 hd
+  generalize hr : rnd ((k : Rat) * c500ppm) = r1 at *
+  have hcast : ((500000 * k + 1 : Int) : Rat) = 500000 * (k : Rat) + 1 := by
+    rw [Rat.intCast_add, Rat.intCast_mul]; simp
+  -- upper side
+  have up : trunc (rnd (p * 1000000000)) ≤ 500000 * k := by
+    have m := trunc_mono (rnd_mono (show p * 1000000000 ≤ r1 * 1000000000 by grind))
+    have : trunc (rnd (r1 * 1000000000)) < 500000 * k + 1 := by
+      by_cases hs : 0 ≤ rnd (r1 * 1000000000)
+      · have t := (trunc_of_nonneg hs).2.1
+        have : ((trunc (rnd (r1 * 1000000000)) : Int) : Rat) < ((500000 * k + 1 : Int) : Rat) := by
+          rw [hcast]; grind
+        exact Rat.intCast_lt_intCast.1 this
+      · have := (trunc_of_nonpos (show rnd (r1 * 1000000000) ≤ 0 by grind)).1
+        omega
+    omega
+  -- lower side, by symmetry
+  have lo : -(500000 * k) ≤ trunc (rnd (p * 1000000000)) := by
+    have m := trunc_mono (rnd_mono (show -(r1 * 1000000000) ≤ p * 1000000000 by grind))
+    rw [rnd_neg] at m
+    have : -(500000 * k + 1) < trunc (-(rnd (r1 * 1000000000))) := by
+      by_cases hs : 0 ≤ rnd (r1 * 1000000000)
+      · have t := (trunc_of_nonpos (show -(rnd (r1 * 1000000000)) ≤ 0 by grind)).2.1
+        have : ((-(500000 * k + 1) : Int) : Rat) < ((trunc (-(rnd (r1 * 1000000000))) : Int) : Rat) := by
+          rw [Rat.intCast_neg, hcast]; grind
+        exact Rat.intCast_lt_intCast.1 this
+      · have := (trunc_of_nonneg (show 0 ≤ -(rnd (r1 * 1000000000)) by grind)).1
+        omega
+    omega
+  exact ⟨lo, up⟩
+
+/-! ### 9. bit patterns: `ofBits (toBits x) = x` -/
+
+theorem bits_decomp (s E r : Nat) (hs : s ≤ 1) (hE : E < 2048) (hr : r < 4503599627370496) :
+    (s * 9223372036854775808 + E * 4503599627370496 + r) / 9223372036854775808 % 2 = s ∧
+    (s * 9223372036854775808 + E * 4503599627370496 + r) / 4503599627370496 % 2048 = E ∧
+    (s * 9223372036854775808 + E * 4503599627370496 + r) % 4503599627370496 = r := by
+  generalize hb : s * 9223372036854775808 + E * 4503599627370496 + r = b
+  have q1 : b / 9223372036854775808 = s := by omega
+  have q2 : b / 4503599627370496 = s * 2048 + E := by omega
+  refine ⟨by omega, by omega, by omega⟩
+
+/-- decoding a pattern given by its three fields -/
+theorem ofBits_parts (sg : Bool) (E r : Nat) (hE : E < 2048) (hr : r < 2 ^ 52) :
+    ofBits ((if sg then 2 ^ 63 else 0) + E * 2 ^ 52 + r) =
+      if E = 2047 then (if r = 0 then .inf sg else .nan)
+      else if E = 0 then
+        (if r = 0 then .zero sg
+         else .fin (if sg then -((r : Rat) * pow2 (-1074)) else (r : Rat) * pow2 (-1074)))
+      else .fin (if sg then -(((2 ^ 52 + r : Nat) : Rat) * pow2 ((E : Int) - 1075))
+                 else ((2 ^ 52 + r : Nat) : Rat) * pow2 ((E : Int) - 1075)) := by
+  unfold ofBits minExp
+  simp only [Nat.reducePow] at hr ⊢
+  cases sg
+  · obtain ⟨a, b, c⟩ := bits_decomp 0 E r (by omega) hE hr
+    simp only [Nat.zero_mul] at a b c
+    simp only [Bool.false_eq_true, if_false, a, b, c]
+    simp
+  · obtain ⟨a, b, c⟩ := bits_decomp 1 E r (by omega) hE hr
+    simp only [Nat.one_mul] at a b c
+    simp only [if_true, a, b, c]
+    simp
+
+/-- the fields of a well-formed finite value: mantissa `m`, exponent `e`, `|q| = m·2^e` -/
+theorem WF_fin_fields {q : Rat} (h : WF (.fin q)) :
+    let a : Rat := if decide (q < 0) = true then -q else q
+    let e := ulpExp a.num.natAbs a.den
+    let m := (a / pow2 e).floor.toNat
+    (m : Rat) * pow2 e = a ∧ 1 ≤ m ∧ m < 2 ^ 53 ∧ (2 ^ 52 ≤ m ∨ e = -1074) ∧ -1074 ≤ e ∧ e ≤ 971 := by
+  obtain ⟨hr, hlt, h0⟩ := WF.rep h
+  have hrnd := rnd_of_rep hr
+  intro a e m
+  have ha_abs : a = q.abs := by
+    show (if decide (q < 0) = true then -q else q) = q.abs
+    by_cases hq : q < 0
+    · simp only [hq, decide_true, if_true]; exact (Rat.abs_of_nonpos (Rat.le_of_lt hq)).symm
+    · simp only [hq, decide_false, Bool.false_eq_true, if_false]; exact (Rat.abs_of_nonneg (by grind)).symm
+  have ha : 0 < a := by rw [ha_abs]; exact Rat.abs_pos_iff.2 h0
+  have hfix : rndPos a = a := by rw [ha_abs, ← rnd_abs, hrnd]
+  have he : e = ulpE a := rfl
+  have hP := pow2_pos e
+  -- the quotient is the natural number chosen by the rounding
+  obtain ⟨k, hk⟩ : ∃ k : Nat, a / pow2 e = (k : Rat) := by
+    refine ⟨roundHalfEven (a / pow2 e), ?_⟩
+    have : ((roundHalfEven (a / pow2 (ulpE a)) : Nat) : Rat) * pow2 (ulpE a) = a := hfix
+    rw [← he] at this
+    apply Rat.le_antisymm
+    · rw [div_le_iff hP, this]; exact Rat.le_refl
+    · rw [le_div_iff hP, this]; exact Rat.le_refl
+  have hm : m = k := by
+    show (a / pow2 e).floor.toNat = k
+    rw [hk, ← Rat.intCast_natCast, Rat.floor_intCast]; simp
+  have hmul : (m : Rat) * pow2 e = a := by
+    rw [hm, ← hk]; exact Rat.div_mul_cancel (pow2_ne_zero e)
+  obtain ⟨L, a1, a2, eL⟩ := ulpE_spec ha
+  rw [← he] at eL
+  have hge : -1074 ≤ e := by rw [he]; exact ulpE_ge a
+  have hL : L < 1024 := pow2_lt_iff.1 (by rw [ha_abs] at a1; grind)
+  have hlt53 : (m : Rat) < ((2 ^ 53 : Nat) : Rat) := by
+    have h1 : pow2 (L + 1) ≤ pow2 (53 + e) := pow2_mono (by rw [eL]; split <;> omega)
+    rw [pow2_add 53 e, pow2_53] at h1
+    have : (m : Rat) * pow2 e < ((2 ^ 53 : Nat) : Rat) * pow2 e := by grind
+    exact Rat.lt_of_mul_lt_mul_right this (Rat.le_of_lt hP)
+  have hm53 : m < 2 ^ 53 := Rat.natCast_lt_natCast.1 hlt53
+  have hm1 : 1 ≤ m := by
+    rcases Nat.eq_zero_or_pos m with hz | hp
+    · rw [hz] at hmul; simp at hmul; grind
+    · exact hp
+  refine ⟨hmul, hm1, hm53, ?_, hge, by rw [eL]; split <;> omega⟩
+  by_cases hsub : L - 52 < -1074
+  · right; rw [eL, if_pos hsub]
+  · left
+    rw [if_neg hsub] at eL
+    have h1 : pow2 52 * pow2 e = pow2 L := by rw [← pow2_add, eL]; congr 1; omega
+    have : ((2 ^ 52 : Nat) : Rat) * pow2 e ≤ (m : Rat) * pow2 e := by
+      rw [← pow2_natCast 52] ; show pow2 52 * pow2 e ≤ _; rw [h1, hmul]; exact a1
+    exact Rat.natCast_le_natCast.1 (Rat.le_of_mul_le_mul_right this hP)
+
+/-- the line protocol loses nothing: decoding the encoding of a well-formed value gives it
+    back (every NaN is the canonical one) -/
+theorem ofBits_toBits {x : F64} (h : WF x) : ofBits (toBits x) = x := by
+  cases x with
+  | nan => decide
+  | inf n => cases n <;> decide
+  | zero n => cases n <;> decide
+  | fin q =>
+    obtain ⟨hmul, hm1, hm53, hnorm, hge, hle⟩ := WF_fin_fields h
+    unfold toBits
+    simp only []
+    generalize hsg : decide (q < 0) = sg at *
+    generalize ha : (if sg = true then -q else q) = a at *
+    generalize he : ulpExp a.num.natAbs a.den = e at *
+    generalize hmm : (a / pow2 e).floor.toNat = m at *
+    have hq : q = if sg = true then -a else a := by
+      rw [← ha]; cases sg <;> simp
+    by_cases hsm : m < 2 ^ 52
+    · rw [if_pos hsm]
+      have he' : e = -1074 := by rcases hnorm with h' | h'; omega; exact h'
+      have := ofBits_parts sg 0 m (by decide) hsm
+      simp only [Nat.zero_mul, Nat.add_zero] at this
+      rw [this]
+      simp only [if_true, if_neg (show ¬ m = 0 by omega)]
+      rw [hq, ← hmul, he', if_neg (by decide)]
+    · rw [if_neg hsm]
+      obtain ⟨E, hE⟩ := Int.eq_ofNat_of_zero_le (show 0 ≤ e + 1075 by omega)
+      have hEn : (e + 1075).toNat = E := by omega
+      rw [hEn]
+      have := ofBits_parts sg E (m - 2 ^ 52) (by omega) (by omega)
+      rw [Nat.add_assoc] at this ⊢
+      rw [this, if_neg (by omega), if_neg (by omega), hq, ← hmul,
+        show 2 ^ 52 + (m - 2 ^ 52) = m by omega, show (E : Int) - 1075 = e by omega]
 
 end ScionTime.F64
